@@ -183,10 +183,10 @@ theorem can_transparent (ps : List Packet) (hn : ∀ p ∈ ps, p.data.length ≤
 
 /-- C13 (serial port): any sequence of packets, with read time-outs anywhere between link frames, is
 received as exactly that sequence, with no error -/
-theorem serial_transparent (ps : List Packet) (hn : ∀ p ∈ ps, p.data.length ≤ 28672) (segs : List Seg)
+theorem serial_transparent_raw (ps : List Packet) (hn : ∀ p ∈ ps, p.data.length ≤ 28672) (segs : List Seg)
     (hnoise : ∀ sg ∈ segs, ∀ bs, sg = .noise bs → ∀ b ∈ bs, b ≠ 0)
     (hs : Seg.bodies segs = ps.flatMap usartBodies) :
-    emitsOf (serialPolls LinkSt.init (segs.flatMap Seg.items)) = ps.map fun p => .emit (.packet p) := by
+    emitsOf (serialPollsRaw LinkSt.init (segs.flatMap Seg.items)) = ps.map fun p => .emit (.packet p) := by
   have hlen : ∀ b ∈ Seg.bodies segs, b.length ≤ 255 := by
     intro b hb
     rw [hs] at hb
@@ -207,7 +207,7 @@ theorem serial_transparent (ps : List Packet) (hn : ∀ p ∈ ps, p.data.length 
         rcases List.mem_cons.mp hsg with rfl | h
         · simp [Seg.bodies]
         · cases x <;> simp [Seg.bodies, ih h]
-  rw [LinkSt.init, serialPolls_segs none segs hok, hs]
+  rw [LinkSt.init, serialPollsRaw_segs none segs hok, hs]
   have hdec : (ps.flatMap usartBodies).map fromUsart = (ps.flatMap specFrames).map .ok := by
     clear hs hlen
     induction ps with
@@ -224,9 +224,9 @@ def notInterrupted : ByteItem → Bool
 
 /-- `read_exact` retries interrupted reads: wherever they occur, they do not change what is delivered
 (only, possibly, how many polls report "nothing") -/
-theorem serialPolls_interrupted (st : LinkSt) (s : List ByteItem) :
-    emitsOf (serialPolls st s) = emitsOf (serialPolls st (s.filter notInterrupted)) := by
-  unfold serialPolls
+theorem serialPollsRaw_interrupted (st : LinkSt) (s : List ByteItem) :
+    emitsOf (serialPollsRaw st s) = emitsOf (serialPollsRaw st (s.filter notInterrupted)) := by
+  unfold serialPollsRaw
   induction s generalizing st with
   | nil => simp
   | cons it s ih =>
@@ -266,8 +266,8 @@ theorem serialPolls_interrupted (st : LinkSt) (s : List ByteItem) :
           · simp only [ho, false_and, if_false]
             exact emitsOf_cons_congr _ _ _ (ih st')
 
-#print axioms serial_transparent
-#print axioms serialPolls_interrupted
+#print axioms serial_transparent_raw
+#print axioms serialPollsRaw_interrupted
 #print axioms usart_transparent
 #print axioms can_transparent
 end Ross
